@@ -50,13 +50,19 @@ def run(ctx) -> None:
         ctx.rule(rid, text)
     for m in ("itertools._Grouper.__anext__", "itertools.GroupBy.__anext__"):
         ctx.unit(m)
+    r16_9(ctx)
     # whole operation histories against itertools.groupby (object model, abstract evaluation)
     from . import objmodel
     objmodel.groupby_histories(ctx, "R16.8", depth=8 if getattr(ctx, "tier", "quick") == "thorough" and not getattr(ctx, "_shared", False) else 6)
     ctx.floor("groupby_operations", 1500)
     if not cursor_is_single_slot(ctx):
         return
-    N = Names(ctx)
+    try:
+        N = Names(ctx)
+    except AnalysisError:
+        if ctx.findings:
+            return  # (a violation was already reported for this shape; the structural rules need names it does not have)
+        raise
     ctx.tables["derived attribute names"] = {k: (v if isinstance(v, (str, type(None))) else getattr(v, "short", str(v)))
                                              for k, v in vars(N).items()}
     r16_1_3_group(ctx, N)
@@ -75,6 +81,35 @@ def run(ctx) -> None:
             if n.kind == "call" and not n.tag and c03._is_awaitify(ctx.vals.expr(u, n.ast.func, n)):
                 ctx.count("groupby_awaitify_sites")
                 c03.awaitify_argument(ctx, "R16.7", u, n)
+
+
+def r16_9(ctx) -> None:
+    """Which group a groupby yields next, and what a group yields, is a function of the operations performed on them
+    - never of whether the caller still *holds* an earlier group: itertools.groupby keeps working when a group is
+    dropped unconsumed.  A library that refers to its handles weakly (or reacts to their finalisation) makes the sequence
+    depend on the caller's references and on the garbage collector."""
+    ctx.rule("R16.9", "the groupby machinery holds no weak reference to its groups and defines no finaliser: what it yields does "
+                      "not depend on which handles the caller keeps alive")
+    from .common import real_units
+    bad = 0
+    for u in real_units(ctx):
+        if u.module.short != "itertools":
+            continue
+        for x in own_nodes(u.node):
+            if isinstance(x, ast.Call):
+                try:
+                    r = ctx.pkg.resolve_expr_global(u.module, x.func)
+                except Exception:  # noqa: BLE001
+                    continue
+                if r is not None and r.kind == "stdlib" and (r.qual.startswith("weakref.") or r.qual.startswith("gc.")):
+                    bad += 1
+                    ctx.fail("R16.9", u, x, f"`{norm(x)}`: a weak reference to a handle makes what the library does next depend on "
+                             "whether the caller still holds that handle (and on when the collector runs)", line=x.lineno)
+        if getattr(u.node, "name", "") == "__del__":
+            bad += 1
+            ctx.fail("R16.9", u, "__del__", "a finaliser ties behaviour to the garbage collector")
+    if not bad:
+        ctx.ok("R16.9", "itertools", "no weak references, no finalisers")
 
 
 def cursor_is_single_slot(ctx, rid: str = "R16.3") -> bool:
@@ -617,6 +652,12 @@ def r16_4(ctx, N) -> None:
                     elif touches_key:
                         ctx.check(all(isinstance(o, (ast.Eq, ast.NotEq)) for o in c.ops), "R16.4", m, c,
                                   "user keys are compared by equality only (like itertools.groupby)", node=n)
+                    elif not all(isinstance(o, (ast.Is, ast.IsNot)) for o in c.ops) and any(
+                            {a_[0] for a_ in ctx.vals.expr(m, o, n)} & {"item", "usernext"} for o in operands):
+                        # an *item* of the stream in an equality / order comparison: itertools.groupby looks at keys only -
+                        # two items that compare equal may well have different keys
+                        ctx.fail("R16.4", m, c, "an item of the stream is compared (the item's own __eq__ / __lt__ decides): runs are "
+                                 "delimited by the keys alone, equal items may have different keys", node=n)
                     elif any(isinstance(o, (ast.Is, ast.IsNot)) for o in c.ops):
                         def lib_object(o) -> bool:
                             # a parameter that is declared to be an object of a private library class (a group handed to
